@@ -23,6 +23,8 @@ pub fn units(tier: &str, _seed: u64) -> Vec<String> {
         // the building's only electricity
         "4/U:CAL:GASNATURAL;4/X",
         "1/U:ACS:ELECTRICIDAD;1/X;P:EL_INSITU;2/U:CAL:GASNATURAL;2/X",
+        // two cogeneration units on the same fuel
+        "U:ILU:ELECTRICIDAD;1/P:EL_COGEN;1/U:COGEN:GASNATURAL;2/P:EL_COGEN;2/U:COGEN:GASNATURAL",
     ];
     let mut v = vec![];
     for s in shapes {
